@@ -107,6 +107,46 @@ pub enum Num {
     I(i64),
     /// finite double given as mantissa/1000
     F(i32),
+    /// the largest finite double (negated if `neg`): two of them in a summed sequence leave the finite range
+    FMax { neg: bool },
+}
+
+/// does the running total of the sequence overflow `i64` (all integers) or leave the finite doubles?
+pub fn seq_total_overflows(seq: &[Num]) -> bool {
+    if !seq.is_empty() && seq.iter().all(|n| matches!(n, Num::I(_))) {
+        let mut t = 0i64;
+        for n in seq {
+            let Num::I(i) = n else { unreachable!() };
+            match t.checked_add(*i) {
+                Some(v) => t = v,
+                None => return true,
+            }
+        }
+        false
+    } else {
+        let mut t = 0f64;
+        for n in seq {
+            t += n.as_f64();
+            if !t.is_finite() {
+                return true;
+            }
+        }
+        false
+    }
+}
+
+impl Num {
+    pub fn is_float(&self) -> bool {
+        matches!(self, Num::F(_) | Num::FMax { .. })
+    }
+    pub fn as_f64(&self) -> f64 {
+        match self {
+            Num::I(i) => *i as f64,
+            Num::F(f) => *f as f64 / 1000.0,
+            Num::FMax { neg: false } => f64::MAX,
+            Num::FMax { neg: true } => -f64::MAX,
+        }
+    }
 }
 
 #[derive(Serialize, Deserialize, Debug, Clone, PartialEq)]
@@ -234,15 +274,15 @@ pub fn emit_one(otlp: &emit_otlp::Otlp, case_id: u64, spec: &EventSpec) {
         ValueSpec::Seq(v) => {
             if v.iter().all(|n| matches!(n, Num::I(_))) {
                 Held::I(v.iter().map(|n| if let Num::I(i) = n { *i } else { 0 }).collect())
-            } else if v.iter().all(|n| matches!(n, Num::F(_))) {
-                Held::F(v.iter().map(|n| if let Num::F(f) = n { *f as f64 / 1000.0 } else { 0.0 }).collect())
+            } else if v.iter().all(|n| n.is_float()) {
+                Held::F(v.iter().map(|n| n.as_f64()).collect())
             } else {
                 // mixed ints and floats: a numeric sequence of doubles and integers
                 Held::Mixed(
                     v.iter()
                         .map(|n| match n {
                             Num::I(i) => MixedElem::N(*i),
-                            Num::F(f) => MixedElem::F(*f as f64 / 1000.0),
+                            f => MixedElem::F(f.as_f64()),
                         })
                         .collect(),
                 )
@@ -664,7 +704,7 @@ pub fn classify(cfg: &Config, e: &EventSpec, cx: &mut Cx) {
         ValueSpec::NaN | ValueSpec::Inf { .. } => "value:non-finite",
         ValueSpec::Seq(s) if s.is_empty() => "value:empty-seq",
         ValueSpec::Seq(s) if s.iter().all(|n| matches!(n, Num::I(_))) => "value:int-seq",
-        ValueSpec::Seq(s) if s.iter().all(|n| matches!(n, Num::F(_))) => "value:float-seq",
+        ValueSpec::Seq(s) if s.iter().all(|n| n.is_float()) => "value:float-seq",
         ValueSpec::Seq(_) => "value:mixed-num-seq",
         ValueSpec::Nested(_) => "value:nested-seq",
         ValueSpec::SeqWithText(_) => "value:seq-with-text",
@@ -672,6 +712,10 @@ pub fn classify(cfg: &Config, e: &EventSpec, cx: &mut Cx) {
         ValueSpec::Bool(_) => "value:bool",
         ValueSpec::Null => "value:null",
     });
+    if let ValueSpec::Seq(seq) = &e.value {
+        // a numeric sequence all the same (the statement says "numeric-sequence value", not "whose total fits")
+        cx.class_if(seq_total_overflows(seq), "value:seq-whose-running-total-leaves-i64-or-the-finite-doubles");
+    }
     cx.class(match &e.agg {
         AggSpec::Absent => "agg:absent",
         AggSpec::Text(s) if s == "sum" => "agg:sum",
